@@ -32,7 +32,7 @@ func init() {
 	Register(&Rule{
 		ID:    "R-POOL",
 		Doc:   "typestate per sync.Pool object x := P.Get(): after P.Put(x) no use of x or of memory loaded from it; nothing derived from x's memory flows to a return (copy-out); a released tokenizer stack is dropped from its owner",
-		Props: []string{"C09", "C10", "C17", "C03", "C06", "C01", "C14", "C12", "C05", "C04", "C13"},
+		Props: []string{"C09", "C10", "C17", "C03", "C06", "C01", "C14", "C12", "C05", "C04", "C13", "C07"},
 		Min:   map[string]int{"C09": 7, "C10": 2, "C17": 1, "C03": 1, "C06": 5, "C01": 5, "C14": 5, "C12": 1},
 		Run:   runPool,
 	})
@@ -838,7 +838,7 @@ func runPool(c *core.Ctx) []core.Obligation {
 			props = []string{"C09", "C17"}
 		}
 		if strings.HasPrefix(shortName(fn), "proto.") {
-			props = []string{"C09", "C03", "C12"}
+			props = []string{"C09", "C03", "C12", "C07"} // what a rejected input leaves in pooled scratch shows up in the next, valid, decode
 		}
 		if strings.HasPrefix(shortName(fn), "thrift.") {
 			// bytes handed out and then overwritten are no longer the specification's encoding of the value
